@@ -246,12 +246,39 @@ def c05_failed_watch_registers_nothing():
     return None if log == [] else f"watch(cb, ['a', 'nosuch']) raised, yet p.a = 1 called the callback: {log}"
 
 
+def c17_copy_inside_open_batch():
+    """534cb04: _InstancePrivate.__getstate__ copied the dispatch state, so a copy made inside a batch stayed in batch mode"""
+    import copy, pickle
+    log = []
+    class G(param.Parameterized):
+        x = param.Integer(0)
+        @param.depends('x', watch=True)
+        def m(self):
+            log.append(self)
+    globals().update(G=G)
+    G.__qualname__ = 'G'
+    bad = []
+    for name, mk in (('deepcopy', copy.deepcopy), ('pickle', lambda o: pickle.loads(pickle.dumps(o)))):
+        g = G()
+        with param.parameterized.batch_call_watchers(g):
+            g.x = 1
+            c = mk(g)
+        if [o is g for o in log] != [True]:
+            bad.append(f'{name}: leaving the batch called m on {len(log)} objects, not once on the original')
+        del log[:]
+        c.x = 5
+        if [o is c for o in log] != [True]:
+            bad.append(f'{name}: c.x = 5 on the copy called m {len(log)} times (the copy is still in batch mode: _BATCH_WATCH == {c.param._BATCH_WATCH})')
+        del log[:]
+    return None if not bad else '; '.join(bad)
+
+
 if __name__ == '__main__':
     for f in [c03_slot_watcher_list_mutated, c03_slot_watcher_registered_in_callback, c16_selector_schema_unnamed_object,
               c18_remove_equal_not_identical, c18_extend_iterator, c18_update_mapping, c18_pop_default,
               c05_class_trigger_inherited_event, c05_failed_watch_registers_nothing, c02_rejected_class_assignment_copy, c08_relink_per_instance_false,
               c12_subclass_copy_shares_containers, c17_multi_name_watcher_after_copy, c17_depth2_dependency_copy,
-              c12_instance_copy_of_blanking_parameter]:
+              c12_instance_copy_of_blanking_parameter, c17_copy_inside_open_batch]:
         try: r = f()
         except Exception as e: r = f'demo crashed: {type(e).__name__}: {e}'
         print(f'{f.__name__:44s}', 'DEFECT: ' + r if r else 'ok')
